@@ -151,6 +151,14 @@ func adversarial() []advCase {
 	add("gtab.Read/GSUB", "ext-lookups-60x98", lookupAliasedExt(7, 60, 98))
 	add("gtab.Read/GPOS", "ext-lookups-60x98", lookupAliasedExt(9, 60, 98))
 	add("kern.Read", "overlapping-subtables", kernOverlapping(65535))
+	// simple CFF fonts that select a predefined charset (Top DICT charset
+	// operand 0, 1, 2 = ISOAdobe, Expert, ExpertSubset: 229, 166, 87 names)
+	// with glyph counts below, at and above the size of each name list
+	for _, cs := range []int{0, 1, 2} {
+		for _, n := range []int{1, 2, 86, 87, 88, 100, 165, 166, 167, 200, 228, 229, 230, 300} {
+			add("cff.Read", "predefined-charset-"+itoa(cs)+"-glyphs-"+itoa(n), cffPredefinedCharset(cs, n))
+		}
+	}
 	add("gtab.Read/GSUB", "gsub2_1-aliased-sequences-2000", gsub2Aliased(2000))
 	add("gtab.Read/GSUB", "gsub2_1-aliased-sequences-16000", gsub2Aliased(16000))
 	return out
@@ -232,4 +240,45 @@ func lookupAliasedExt(extType, nLookups, nSub int) []byte {
 	lt = append(lt, sub...)
 	ll = append(ll, lt...)
 	return append(b, ll...)
+}
+
+
+func itoa(v int) string {
+	if v == 0 {
+		return "0"
+	}
+	var d []byte
+	for ; v > 0; v /= 10 {
+		d = append([]byte{byte('0' + v%10)}, d...)
+	}
+	return string(d)
+}
+
+// cffPredefinedCharset assembles, from the CFF specification (Adobe TN5176), a
+// minimal simple (not CID-keyed) CFF font with nGlyphs glyphs (each the single
+// operator endchar) whose Top DICT selects the predefined charset cs.
+func cffPredefinedCharset(cs, nGlyphs int) []byte {
+	int5 := func(v int) []byte { return []byte{29, byte(v >> 24), byte(v >> 16), byte(v >> 8), byte(v)} }
+	b := []byte{1, 0, 4, 1}                       // header: 1.0, hdrSize 4, offSize 1
+	b = append(b, 0, 1, 1, 1, 2, 'A')             // Name INDEX: one name "A"
+	const topLen = 6 + 6 + 11                     // charset, CharStrings, Private
+	charStringsAt := len(b) + (2 + 1 + 2 + topLen) + 2 + 2
+	csIndexLen := 2 + 1 + 2*(nGlyphs+1) + nGlyphs // count, offSize 2, offsets, data
+	privateAt := charStringsAt + csIndexLen
+	top := append(int5(cs), 15)                                          // charset
+	top = append(append(top, int5(charStringsAt)...), 17)                // CharStrings
+	top = append(append(append(top, int5(2)...), int5(privateAt)...), 18) // Private: size, offset
+	b = append(b, 0, 1, 1, 1, byte(1+len(top)))
+	b = append(b, top...)
+	b = append(b, 0, 0) // String INDEX: empty
+	b = append(b, 0, 0) // Global Subr INDEX: empty
+	b = append(b, byte(nGlyphs>>8), byte(nGlyphs), 2)
+	for i := 0; i <= nGlyphs; i++ {
+		b = append(b, byte((1+i)>>8), byte(1+i))
+	}
+	for i := 0; i < nGlyphs; i++ {
+		b = append(b, 14) // endchar
+	}
+	b = append(b, 0x8b, 20) // Private DICT: defaultWidthX 0
+	return b
 }
